@@ -15,6 +15,7 @@ ORACLES = {
     'rx-credit': ('c20', 'credit_oracle', 'rx_case', 36),
     'rx-take': ('c20', 'take_oracle', 'rx_case', 66),
     'slow-connect-keepalive': ('c15', 'slow_connect_oracle', 'slow_case', 3),
+    'partial-request-cancel': ('c10', 'partial_cancel_oracle', 'partial_case', 40),
 }
 
 
